@@ -14,14 +14,17 @@ package req
 
 import (
 	"bufio"
+	"bytes"
 	"fmt"
 	"io"
 	"net/http"
 	"strconv"
 	"strings"
 	"testing"
+	"time"
 
 	"github.com/imroc/req/v3/internal/verifh"
+	"github.com/quic-go/quic-go/quicvarint"
 )
 
 type c07Rec struct {
@@ -185,6 +188,188 @@ func TestVerif_C07_h1limit(t *testing.T) {
 				}
 			}
 		}
+	}
+	s.Finish()
+}
+
+// TestVerif_C07_limitwire: the header limits at their boundaries through the real clients.
+func TestVerif_C07_limitwire(t *testing.T) {
+	s := verifh.New(t, "C07", "limitwire",
+		"header limits at the boundary, over the wire: HTTP/1.1 MaxResponseHeaderBytes L (head of exactly L-1 / L / L+1 / 2L bytes as huge value / huge name / tiny lines; oracle accept iff size <= L), HTTP/2 MaxHeaderListSize L (field list of total size L-1 / L / L+1 / L/2 / 2L as tiny fields / huge name / huge value in one HEADERS frame; model = readMeta: response iff returned complete), HTTP/3 MaxResponseHeaderBytes L (QPACK block of exactly L-1 / L / L+1 bytes, and a HEADERS frame declaring 2^40 bytes; model = H3Budget.readHead: block read iff length <= L); every case non-trivial")
+	rep := strings.Repeat
+	// ---- HTTP/1.1
+	{
+		peer := newC07Peer(t)
+		base := "http://" + peer.ln.Addr().String()
+		seq := 0
+		for _, L := range []int{300, 4096, 10000} {
+			c := C().SetTimeout(10 * time.Second).SetLogger(nil)
+			c.GetTransport().SetMaxResponseHeaderBytes(int64(L))
+			for _, S := range []int{L - 1, L, L + 1, 2 * L} {
+				for _, shape := range []string{"huge-value", "huge-name", "tiny-lines"} {
+					var head string
+					switch shape {
+					case "huge-value":
+						pre, suf := "HTTP/1.1 200 OK\r\nContent-Length: 5\r\nX-V: ", "\r\n\r\n"
+						head = pre + rep("v", S-len(pre)-len(suf)) + suf
+					case "huge-name":
+						pre, suf := "HTTP/1.1 200 OK\r\nContent-Length: 5\r\nX", ": v\r\n\r\n"
+						head = pre + rep("n", S-len(pre)-len(suf)) + suf
+					default:
+						pre, suf := "HTTP/1.1 200 OK\r\nContent-Length: 5\r\n", "\r\n"
+						n := S - len(pre) - len(suf)
+						var b strings.Builder
+						for n >= 12 {
+							b.WriteString("a: b\r\n")
+							n -= 6
+						}
+						b.WriteString("a: " + rep("b", n-5) + "\r\n")
+						head = pre + b.String() + suf
+					}
+					if len(head) != S {
+						t.Fatalf("limitwire: built %d bytes for S=%d", len(head), S)
+					}
+					seq++
+					path := "/l" + strconv.Itoa(seq)
+					peer.set(path, c07Script{data: []byte(head + "hello")})
+					rp, err := c.R().Get(base + path)
+					got := "error"
+					if err == nil && rp != nil && rp.StatusCode == 200 {
+						got = "response"
+					}
+					want := "response"
+					if S > L {
+						want = "error"
+					}
+					human := fmt.Sprintf("HTTP/1.1 L=%d head=%s S=%d -> %s", L, shape, S, got)
+					s.Count("h1:" + got)
+					s.Observe("limitwire:h1:"+human, got == want, "", true, human, human+" (expected "+want+")")
+				}
+			}
+			c.GetTransport().CloseIdleConnections()
+		}
+		peer.closeAll()
+	}
+	// ---- HTTP/2
+	{
+		peer := newC07H2Peer(t)
+		base := "http://" + peer.ln.Addr().String()
+		seq := 0
+		for _, L := range []int{200, 1000, 6000} {
+			for _, T := range []int{L - 1, L, L + 1, L / 2, 2 * L} {
+				for _, shape := range []string{"huge-value", "huge-name", "tiny"} {
+					fields := [][2]string{{":status", "200"}} // 42 bytes
+					rest := T - 42
+					switch shape {
+					case "huge-value":
+						fields = append(fields, [2]string{"x-v", rep("v", rest-32-3)})
+					case "huge-name":
+						fields = append(fields, [2]string{rep("n", rest-32-1), "v"})
+					default:
+						for rest >= 2*34 {
+							fields = append(fields, [2]string{"a", "b"})
+							rest -= 34
+						}
+						fields = append(fields, [2]string{"a", rep("b", rest-33)})
+					}
+					tot := 0
+					var evs []string
+					bad := false
+					for _, f := range fields {
+						tot += len(f[0]) + len(f[1]) + 32
+						if !bad {
+							if len(f[0]) > L || len(f[1]) > L {
+								evs = append(evs, "!")
+								bad = true
+							} else {
+								evs = append(evs, verifh.Hex(f[0])+"="+verifh.Hex(f[1]))
+							}
+						}
+					}
+					if tot != T {
+						t.Fatalf("limitwire: built total %d for T=%d", tot, T)
+					}
+					block := c07Hpack(fields...)
+					if len(block) > 16000 {
+						continue
+					}
+					var out bytes.Buffer
+					out.Write(c07Frame{-1, 4, 0, 0, nil}.bytes())
+					out.Write(c07Frame{-1, 1, 0x4, 1, block}.bytes())
+					out.Write(c07Frame{-1, 0, 1, 1, []byte("hello")}.bytes())
+					seq++
+					path := "/l" + strconv.Itoa(seq)
+					peer.set(path, c07Script{data: out.Bytes()})
+					c := C().SetTimeout(10 * time.Second).EnableH2C().EnableForceHTTP2().SetLogger(nil).SetHTTP2MaxHeaderListSize(uint32(L))
+					rp, err := c.R().Get(base + path)
+					got := "error"
+					if err == nil && rp != nil && rp.StatusCode == 200 {
+						got = "response"
+					}
+					c.GetTransport().CloseIdleConnections()
+					human := fmt.Sprintf("HTTP/2 L=%d fields=%s T=%d -> %s", L, shape, T, got)
+					s.Count("h2:" + got)
+					s.Case("c07h2accept "+strconv.Itoa(L)+" "+strconv.Itoa(len(block))+":"+strings.Join(evs, "+"), got, true, "", true, human)
+				}
+			}
+		}
+		peer.closeAll()
+	}
+	// ---- HTTP/3
+	if C().EnableForceHTTP3().t3 != nil {
+		peer := newC07H3Peer(t)
+		base := "https://" + peer.ln.Addr().String()
+		seq := 0
+		for _, L := range []int{100, 1000, 5000} {
+			c := C().SetTimeout(10 * time.Second).EnableForceHTTP3().EnableInsecureSkipVerify().SetLogger(nil)
+			c.GetTransport().SetMaxResponseHeaderBytes(int64(L))
+			for _, target := range []int{L - 1, L, L + 1, L / 2, -1} {
+				var stream []byte
+				desc := ""
+				if target < 0 {
+					b := quicvarint.Append(nil, 0x1)
+					b = quicvarint.Append(b, 1<<40)
+					stream = append(b, c07Qpack([2]string{":status", "200"})...)
+					desc = "declared 2^40"
+				} else {
+					// a block of exactly `target` bytes: grow the filler value until the encoder's output fits
+					var block []byte
+					for n := 0; n < 2*L+64; n++ {
+						blk := c07Qpack([2]string{":status", "200"}, [2]string{"x-filler", rep("v", n)})
+						if len(blk) == target {
+							block = blk
+							break
+						}
+						if len(blk) > target {
+							break
+						}
+					}
+					if block == nil {
+						s.Count("h3:unbuildable")
+						continue
+					}
+					stream = append(c07H3Frame(0x1, block), c07H3Frame(0x0, []byte("hello"))...)
+					desc = fmt.Sprintf("block of %d bytes", target)
+				}
+				seq++
+				path := "/l" + strconv.Itoa(seq)
+				peer.set(path, c07H3Script{response: stream, reset: -1, control: []byte{0x00, 0x04, 0x00}})
+				rp, err := c.R().Get(base + path)
+				// the block is a valid field section: it is accepted iff it is read
+				got := "error"
+				if err == nil && rp != nil && rp.StatusCode == 200 {
+					got = "block"
+				}
+				human := fmt.Sprintf("HTTP/3 L=%d %s -> %s", L, desc, got)
+				s.Count("h3:" + got)
+				s.Case("c07h3accept "+strconv.Itoa(L)+" "+verifh.Hex(string(stream)), got, true, "", true, human)
+			}
+			c.GetTransport().CloseIdleConnections()
+			if c.t3 != nil {
+				c.t3.Close()
+			}
+		}
+		peer.closeAll()
 	}
 	s.Finish()
 }
